@@ -70,9 +70,31 @@ def check(prog, rep):
             if tgt and isinstance(val, (ast.Dict, ast.List, ast.Set)) and tgt != "__all__":
                 containers[(m.name, tgt)] = n
     writers = {}
+    via_alias = {}
     for fi in prog.functions.values():
+        # locals that may BE a module container: `opts = given or _DEFAULTS`, `opts = _DEFAULTS if .. else ..`, `opts = _DEFAULTS`
+        may_be = {}
+        for nm_, vals_ in local_assignments(fi.node).items():
+            for v_ in vals_:
+                if not isinstance(v_, ast.AST):
+                    continue
+                cands_ = [v_] + (list(v_.values) if isinstance(v_, ast.BoolOp) else [v_.body, v_.orelse] if isinstance(v_, ast.IfExp) else [])
+                for c_ in cands_:
+                    if isinstance(c_, ast.Name) and (fi.module.name, c_.id) in containers and c_.id not in local_assignments(fi.node):
+                        may_be[nm_] = c_.id
         for n in walk_local(fi.node):
             tgtname = None
+            if may_be:
+                hit_ = None
+                if isinstance(n, (ast.Assign, ast.AugAssign)):
+                    for t in (n.targets if isinstance(n, ast.Assign) else [n.target]):
+                        if isinstance(t, ast.Subscript) and isinstance(t.value, ast.Name) and t.value.id in may_be:
+                            hit_ = may_be[t.value.id]
+                if isinstance(n, ast.Call) and isinstance(n.func, ast.Attribute) and isinstance(n.func.value, ast.Name) and n.func.value.id in may_be and n.func.attr in ("append", "update", "add", "setdefault", "pop", "clear", "extend"):
+                    hit_ = may_be[n.func.value.id]
+                if hit_:
+                    writers.setdefault((fi.module.name, hit_), []).append(fi)
+                    via_alias.setdefault((fi.module.name, hit_), []).append((fi, n))
             if isinstance(n, ast.Assign):
                 for t in n.targets:
                     if isinstance(t, ast.Subscript) and isinstance(t.value, ast.Name):
